@@ -123,8 +123,13 @@ def run(ctx):
                detail=f'items come from `{norm(src) if src is not None else None}`')
     # D3 ragged: empty source
     cr = ctx.repo.func('raggedarray.create_raggedarray')
-    empties = [n for n in own_nodes(g.node) if isinstance(n, ast.If) and norm(n.test) in ('len(self) == 0', 'self.narrays == 0')]
-    ok = bool(empties) and any(cal is cr for n, cal in ctx.E.callees(g)) and must_precede(g, c, empties)
+    # path conditions: with no subarrays the asraggedarray call is unreachable and create_raggedarray is reached
+    envz = {'len(self)': 0, 'self.narrays': 0, 'self._indices.shape[0]': 0, 'len(self._indices)': 0}
+    mayz = reach_under(g, _trunc.folder(envz, g))
+    gg = cfg_of(g)
+    crcalls = [n for n, cal in ctx.E.callees(g) if cal is cr]
+    ok = bool(crcalls) and gg.node_for(c) not in mayz and any(gg.node_for(n) in mayz for n in crcalls)
+    empties = crcalls
     ctx.decide(ok, 'R-BELIEF', 'D3', g, empties[0] if empties else None, 'empty-ragged-source',
                'RaggedArray.copy creates an empty copy when the source has no subarrays (asraggedarray needs a first item)',
                detail='copying a ragged array without subarrays fails')
